@@ -16,7 +16,7 @@ func init() {
 		Explain: "Decided. Scan side: D1 effect inventory — in all first-party code reachable (CHA) from the methods of every registered filesystem extractor and from filesystem.Run, the only calls of file-system-mutating primitives (os.Create/OpenFile-for-write/WriteFile/Mkdir*/Remove*/Rename/Symlink/Link/Chmod/Chown/Chtimes/Truncate/Chdir, temp-file creators, exec.Command*, database opens) are the audited ones: the temp copy in ScanInput.GetRealPath and the RemoveAll of that temp dir in its callers; " +
 			"D2 database opens are read-only: every bbolt.Open passes Options{ReadOnly: true}; D3 temp pairing — every caller of GetRealPath removes filepath.Dir(<the returned path>) on all exits when the root is virtual, and GetRealPath removes its directory on its own error exits. " +
 			"Image side: D4 in unpack every os.MkdirAll/WriteFile/Symlink is reachable only after the entry name passed the lexical '..' test and pathOutsideBaseDirectory(dir, fullPath) returned false for that path; D5 the containment decision is filepath.Rel-based and rejects both rel == \"..\" and the \"../\" prefix, errors count as outside; D6 layer scanning writes only below filepath.Join(<layer dir>, cleaned name) after the '../' test, creates no symlinks or hard links on disk, every error exit after the temp dir was created passes the clean-up, UnpackSquashed removes its temp dir. " +
-			"Added in round 2: D7 symlink.TargetOutsideRoot answers on every path with the marker test on the joined, cleaned path of the target. Added in round 3: D8 a link name is re-rooted under the target directory exactly when it is absolute (the reading TargetOutsideRoot assumes). Added in round 7: D5 additionally: after a failed EvalSymlinks of the parent only fs.ErrNotExist lets the containment check go on (to an ancestor or to 'inside'). NOT decided: effects inside third-party callees (go-rpmdb's sqlite backend, saferwall/pe), symlink targets that resolve outside only through directories changed by later entries, detectors and standalone extractors (outside the scan clause checked here).",
+			"Added in round 2: D7 symlink.TargetOutsideRoot answers on every path with the marker test on the joined, cleaned path of the target. Added in round 3: D8 a link name is re-rooted under the target directory exactly when it is absolute (the reading TargetOutsideRoot assumes). Added in round 7: D5 additionally: after a failed EvalSymlinks of the parent only fs.ErrNotExist lets the containment check go on (to an ancestor or to 'inside'). Added in round 8: D5 additionally: every answer other than 'outside' is dominated by EvalSymlinks of the parent. NOT decided: effects inside third-party callees (go-rpmdb's sqlite backend, saferwall/pe), symlink targets that resolve outside only through directories changed by later entries, detectors and standalone extractors (outside the scan clause checked here).",
 		Assume:       []string{"effects inside third-party functions are not explored; their open modes are trusted rows (rpmdb.Open, pe.New)"},
 		ThoroughGOOS: []string{"linux", "windows", "darwin"},
 		Run:          runC06,
@@ -617,6 +617,24 @@ func c06Unpack(p *Prog, r *Report) {
 				bad = strings.Join(w, "→")
 			}
 		}
+		// 'inside' is answered only for a parent that was resolved: a shortcut that looks at the last
+		// component only (Lstat) follows symlinks in the components before it
+		unresolved := ""
+		for _, ret := range returnsOf(pob) {
+			if b, isB := constBool(retVal(ret, 0)); isB && b {
+				continue
+			}
+			dom := false
+			for _, ev := range evals {
+				if ev.Block().Dominates(ret.Block()) {
+					dom = true
+				}
+			}
+			if !dom {
+				unresolved = p.Pos(ret.Pos())
+			}
+		}
+		r.Check(unresolved == "", "D5-no-prefix-confusion", fb.key+":inside-only-after-resolution", p.Pos(evals[0].Pos()), "every answer other than 'outside' comes after filepath.EvalSymlinks of the parent", "pathOutsideBaseDirectory can answer 'inside' without having resolved the parent directory (at "+unresolved+"): a test of the last path component alone (Lstat, IsDir) does not see a symlink in an earlier component, so an entry two levels below a link that leaves the target directory is written outside it")
 		r.Check(len(failed) > 0 && bad == "", "D5-no-prefix-confusion", fb.key+":unresolvable-means-outside", p.Pos(evals[0].Pos()), "after a failed EvalSymlinks only fs.ErrNotExist lets the check continue", "when the parent directory cannot be resolved for a reason other than 'does not exist yet' (a path longer than PATH_MAX reached through short symlink aliases, a loop, a permission error) the check goes on to an ancestor or answers 'inside' instead of 'outside': the kernel can still walk that directory, so the entry is written through it to wherever it leads; witness path (SSA blocks): "+bad)
 	}
 	// no HasPrefix(x, baseDir) decisions left
